@@ -83,6 +83,24 @@ LOGIC = Logic(
             " and forall(i, 'int', forall(k, 'int', implies(0 <= i and i < k and k < seq_len(f._deps_of),"
             "   select(f._deps_of, i) != select(f._deps_of, k))))"
             " and forall(j, 'int', implies(0 <= j and j < seq_len(f._exe_deps), select(f._exe_deps, j).g_inplan))",
+        "hook_c1(x)":
+            "forall(i, 'int', implies(0 <= i and i < seq_len(all_ops), forall(q, 'int', implies(0 <= q and q < seq_len(select(all_ops, i)._deps_of),"
+            "   (select(select(all_ops, i)._deps_of, q).g_inplan or select(select(all_ops, i)._deps_of, q) == x)"
+            "   and 0 <= select(select(all_ops, i).g_back, q) and select(select(all_ops, i).g_back, q) < seq_len(select(select(all_ops, i)._deps_of, q)._exe_deps)"
+            "   and select(select(select(all_ops, i)._deps_of, q)._exe_deps, select(select(all_ops, i).g_back, q)) == select(all_ops, i)))))",
+        "hook_c2()":
+            "forall(i, 'int', implies(0 <= i and i < seq_len(all_ops), forall(q, 'int', forall(r, 'int', implies(0 <= q and q < r and r < seq_len(select(all_ops, i)._deps_of),"
+            "   select(select(all_ops, i)._deps_of, q) != select(select(all_ops, i)._deps_of, r))))))",
+        "hook_c3()":
+            "forall(i, 'int', implies(0 <= i and i < seq_len(all_ops), forall(j, 'int', implies(0 <= j and j < seq_len(select(all_ops, i)._exe_deps),"
+            "   select(select(all_ops, i)._exe_deps, j).g_inplan))))",
+        "hook_fields()": "forall(i, 'int', implies(0 <= i and i < seq_len(all_ops), op_fields_ok(select(all_ops, i))))",
+        "hook_last(x, bound)":
+            "forall(i, 'int', implies(0 <= i and i < seq_len(all_ops),"
+            " implies(select(all_ops, i).g_last == x, 0 <= select(all_ops, i).g_dpos and select(all_ops, i).g_dpos < seq_len(Deps(lid(lt)))"
+            "   and seq_len(Deps(lid(lt))) - 1 - select(all_ops, i).g_dpos < bound and select(all_ops, i).g_tid == select(Deps(lid(lt)), select(all_ops, i).g_dpos))"
+            " and implies(select(all_ops, i).g_last != x, forall(q, 'int', implies(0 <= q and q < seq_len(select(all_ops, i)._deps_of), select(select(all_ops, i)._deps_of, q) != x)))"
+            " and (select(all_ops, i).g_last is None or some(select(all_ops, i).g_last).g_inplan or some(select(all_ops, i).g_last) == x)))",
         "op_fields_ok(o)":
             "o._state == OperationState.QUEUED and not o.g_started and o.main_task is not None and o.g_phase == 0"
             " and o.g_marks == const_arr('Arr[int,bool]', False) and allocated(o._deps_of) and allocated(o._exe_deps)",
@@ -221,7 +239,8 @@ CONTRACTS = [
              loops={
                  0: Loop(header="while len(stack) > 0:", modifies=LOOP0_MOD,
                          invariant=[
-                             C("canonical_entries", "vis_inv()"),
+                             C("canonical_entries", "vis_inv()", needs=["stack_entries", "objects_own_their_lists", "operations", "closure_loaded_and_acyclic", "this_entry", "stack_prefix_kept",
+                                                                           "entries_below_keep_their_invariant", "new_entries_are_fresh_first_visits", "new_operation", "stack_entries_are_distinct_objects"]),
                              C("operations", "ops_inv2()"),
                              C("edges", "edges_inv()", needs=['canonical_entries', 'operations', 'objects_own_their_lists', 'stack_entries', 'this_entry', 'stack_prefix_kept', 'hooked_so_far', 'this_dependency', 'closure_loaded_and_acyclic']),
                              C("stack_entries", "stack_inv()", needs=['stack_entries_are_distinct_objects', 'ranks_decrease_upwards', 'canonical_entries', 'objects_own_their_lists', 'closure_loaded_and_acyclic', 'entries_below_keep_their_invariant', 'deps_prefix', 'new_entries_are_fresh_first_visits', 'this_entry', 'stack_prefix_kept']),
@@ -232,9 +251,10 @@ CONTRACTS = [
                              C("objects_own_their_lists", "lists_owned()"),
                              C("cached", "cached_inv()"),
                              C("inplan_operations_are_listed", "inplan_listed()", needs=["operations", "new_operation"]),
-                             C("plan_well_formed", "plan_wf()", needs=["operations", "inplan_operations_are_listed", "plan_lists_are_owned", "hooking", "new_operation", "canonical_entries", "ghost_state_pristine"]),
+                             C("plan_well_formed", "plan_wf()", needs=["operations", "inplan_operations_are_listed", "plan_lists_are_owned", "hooking_edges", "hooking_distinct", "hooking_exe_deps", "hooking_fields", "hooking_last", "new_operation", "canonical_entries", "ghost_state_pristine"]),
                              C("plan_lists_are_owned", "plan_lists_owned()", needs=["operations", "plan_well_formed", "new_operation"]),
-                             C("initial_operations", "init_wf()", needs=["operations", "plan_well_formed", "plan_lists_are_owned", "inplan_operations_are_listed", "new_operation", "hooking"]),
+                             C("initial_operations", "init_wf()", needs=["operations", "plan_well_formed", "plan_lists_are_owned", "inplan_operations_are_listed", "new_operation", "hooking_fields", "hooking_exe_deps"]),
+                             C("operations_outside_the_plan_have_no_dependent_recorded", "forall(o, 'Operation', implies(not o.g_inplan, o.g_last is None))", needs=[]),
                              C("count", "num_tasks_to_run == seq_len(all_ops)"),
                              C("root", "(task_id in visited) or (seq_len(stack) == 1 and lid(select(stack, 0)) == task_id)"),
                              C("decisions", "run_again or forall(t, 'TaskIdentifier', (t in g_sr_called) == (t in visited))"),
@@ -284,20 +304,30 @@ CONTRACTS = [
                          invariant=[
                              # dependency j of the task is entry (n-1-j) of lt.deps: hooked once that entry has been processed
                              C("hooked_so_far", "forall(j, 'int', implies(0 <= j and j < seq_len(Deps(lid(lt))) and seq_len(Deps(lid(lt))) - 1 - j < a"
-                                                " and visited[select(Deps(lid(lt)), j)].g_ph == 2, opof(select(Deps(lid(lt)), j)) in new_op._exe_deps))"),
-                             C("hooking", "forall(i, 'int', implies(0 <= i and i < seq_len(all_ops), edges_wf_pending(select(all_ops, i), new_op) and op_fields_ok(select(all_ops, i)) and implies(select(all_ops, i).g_last == new_op, 0 <= select(all_ops, i).g_dpos and select(all_ops, i).g_dpos < seq_len(Deps(lid(lt))) and seq_len(Deps(lid(lt))) - 1 - select(all_ops, i).g_dpos < a and select(all_ops, i).g_tid == select(Deps(lid(lt)), select(all_ops, i).g_dpos)) and implies(select(all_ops, i).g_last != new_op, not (new_op in select(all_ops, i)._deps_of)) and (select(all_ops, i).g_last is None or some(select(all_ops, i).g_last).g_inplan or some(select(all_ops, i).g_last) == new_op)))", needs=["operations", "plan_lists_are_owned", "new_operation", "canonical_entries", "dependencies_listed_once", "inplan_operations_are_listed", "closure_loaded_and_acyclic", "hooking", "this_dependency"]),
-                             C("new_operation", "not new_op.g_inplan and seq_len(new_op._deps_of) == 0 and allocated(new_op._exe_deps) and allocated(new_op._deps_of) and op_fields_ok(new_op) and forall(j, 'int', implies(0 <= j and j < seq_len(new_op._exe_deps), select(new_op._exe_deps, j).g_inplan)) and forall(i, 'int', implies(0 <= i and i < seq_len(all_ops), select(all_ops, i)._exe_deps != new_op._exe_deps and select(all_ops, i)._deps_of != new_op._deps_of and select(all_ops, i) != new_op))", needs=["operations", "hooking", "canonical_entries", "inplan_operations_are_listed"]),
+                                                " and visited[select(Deps(lid(lt)), j)].g_ph == 2, opof(select(Deps(lid(lt)), j)) in new_op._exe_deps))", needs=["canonical_entries", "this_dependency", "hooked_so_far", "stack_entries", "objects_own_their_lists"]),
+                             C("hooking_edges", "hook_c1(new_op)", needs=["operations", "plan_lists_are_owned", "new_operation", "canonical_entries", "inplan_operations_are_listed", "hooking_edges", "hooking_distinct", "hooking_exe_deps", "hooking_fields", "hooking_last", "dependencies_listed_once", "closure_loaded_and_acyclic"]),
+                             C("hooking_distinct", "hook_c2()", needs=["operations", "plan_lists_are_owned", "new_operation", "canonical_entries", "inplan_operations_are_listed", "hooking_edges", "hooking_distinct", "hooking_exe_deps", "hooking_fields", "hooking_last", "dependencies_listed_once", "closure_loaded_and_acyclic"]),
+                             C("hooking_exe_deps", "hook_c3()", needs=["operations", "plan_lists_are_owned", "new_operation", "canonical_entries", "inplan_operations_are_listed", "hooking_edges", "hooking_distinct", "hooking_exe_deps", "hooking_fields", "hooking_last", "dependencies_listed_once", "closure_loaded_and_acyclic"]),
+                             C("hooking_fields", "hook_fields()", needs=["operations", "new_operation", "hooking_fields"]),
+                             C("hooking_last", "hook_last(new_op, a)", needs=["operations", "plan_lists_are_owned", "new_operation", "canonical_entries", "inplan_operations_are_listed", "hooking_edges", "hooking_distinct", "hooking_exe_deps", "hooking_fields", "hooking_last", "dependencies_listed_once", "closure_loaded_and_acyclic"]),
+                             C("new_operation", "not new_op.g_inplan and new_op.g_last is None and seq_len(new_op._deps_of) == 0 and allocated(new_op._exe_deps) and allocated(new_op._deps_of) and op_fields_ok(new_op) and forall(j, 'int', implies(0 <= j and j < seq_len(new_op._exe_deps), select(new_op._exe_deps, j).g_inplan)) and forall(i, 'int', implies(0 <= i and i < seq_len(all_ops), select(all_ops, i)._exe_deps != new_op._exe_deps and select(all_ops, i)._deps_of != new_op._deps_of and select(all_ops, i) != new_op))", needs=["operations", "hooking_exe_deps", "hooking_fields", "canonical_entries", "inplan_operations_are_listed"]),
                              C("plan_lists_are_owned", "plan_lists_owned()", needs=[]),
+                             C("operations_outside_the_plan_have_no_dependent_recorded", "forall(o, 'Operation', implies(not o.g_inplan, o.g_last is None))", needs=["canonical_entries", "operations"]),
                          ]),
                  4: Loop(header="for dep_op in visited[dep.task.identifier].output_ops:", index="b",
                          modifies=["list@new_op._exe_deps", "region:depsof", "Operation.g_back", "Operation.g_last", "Operation.g_dpos"],
                          invariant=[
                              C("hooked_so_far", "forall(j, 'int', implies(0 <= j and j < seq_len(Deps(lid(lt))) and seq_len(Deps(lid(lt))) - 1 - j < a"
-                                                " and visited[select(Deps(lid(lt)), j)].g_ph == 2, opof(select(Deps(lid(lt)), j)) in new_op._exe_deps))"),
-                             C("this_dependency", "implies(b >= 1, select(visited[lid(dep)].output_ops, 0) in new_op._exe_deps)"),
-                             C("hooking", "forall(i, 'int', implies(0 <= i and i < seq_len(all_ops), edges_wf_pending(select(all_ops, i), new_op) and op_fields_ok(select(all_ops, i)) and implies(select(all_ops, i).g_last == new_op, 0 <= select(all_ops, i).g_dpos and select(all_ops, i).g_dpos < seq_len(Deps(lid(lt))) and seq_len(Deps(lid(lt))) - 1 - select(all_ops, i).g_dpos < a + ite(b >= 1, 1, 0) and select(all_ops, i).g_tid == select(Deps(lid(lt)), select(all_ops, i).g_dpos)) and implies(select(all_ops, i).g_last != new_op, not (new_op in select(all_ops, i)._deps_of)) and (select(all_ops, i).g_last is None or some(select(all_ops, i).g_last).g_inplan or some(select(all_ops, i).g_last) == new_op)))", needs=["operations", "plan_lists_are_owned", "new_operation", "canonical_entries", "dependencies_listed_once", "inplan_operations_are_listed", "closure_loaded_and_acyclic", "this_dependency"]),
-                             C("new_operation", "not new_op.g_inplan and seq_len(new_op._deps_of) == 0 and allocated(new_op._exe_deps) and allocated(new_op._deps_of) and op_fields_ok(new_op) and forall(j, 'int', implies(0 <= j and j < seq_len(new_op._exe_deps), select(new_op._exe_deps, j).g_inplan)) and forall(i, 'int', implies(0 <= i and i < seq_len(all_ops), select(all_ops, i)._exe_deps != new_op._exe_deps and select(all_ops, i)._deps_of != new_op._deps_of and select(all_ops, i) != new_op))", needs=["operations", "hooking", "canonical_entries", "inplan_operations_are_listed"]),
+                                                " and visited[select(Deps(lid(lt)), j)].g_ph == 2, opof(select(Deps(lid(lt)), j)) in new_op._exe_deps))", needs=["canonical_entries", "this_dependency", "hooked_so_far", "stack_entries", "objects_own_their_lists"]),
+                             C("this_dependency", "implies(b >= 1, select(visited[lid(dep)].output_ops, 0) in new_op._exe_deps)", needs=["canonical_entries"]),
+                             C("hooking_edges", "hook_c1(new_op)", needs=["operations", "plan_lists_are_owned", "new_operation", "canonical_entries", "inplan_operations_are_listed", "hooking_edges", "hooking_distinct", "hooking_exe_deps", "hooking_fields", "hooking_last", "dependencies_listed_once", "closure_loaded_and_acyclic", "this_dependency"]),
+                             C("hooking_distinct", "hook_c2()", needs=["operations", "plan_lists_are_owned", "new_operation", "canonical_entries", "inplan_operations_are_listed", "hooking_edges", "hooking_distinct", "hooking_exe_deps", "hooking_fields", "hooking_last", "dependencies_listed_once", "closure_loaded_and_acyclic", "this_dependency"]),
+                             C("hooking_exe_deps", "hook_c3()", needs=["operations", "plan_lists_are_owned", "new_operation", "canonical_entries", "inplan_operations_are_listed", "hooking_edges", "hooking_distinct", "hooking_exe_deps", "hooking_fields", "hooking_last", "dependencies_listed_once", "closure_loaded_and_acyclic", "this_dependency"]),
+                             C("hooking_fields", "hook_fields()", needs=["operations", "new_operation", "hooking_fields"]),
+                             C("hooking_last", "hook_last(new_op, a + ite(b >= 1, 1, 0))", needs=["operations", "plan_lists_are_owned", "new_operation", "canonical_entries", "inplan_operations_are_listed", "hooking_edges", "hooking_distinct", "hooking_exe_deps", "hooking_fields", "hooking_last", "dependencies_listed_once", "closure_loaded_and_acyclic", "this_dependency"]),
+                             C("new_operation", "not new_op.g_inplan and new_op.g_last is None and seq_len(new_op._deps_of) == 0 and allocated(new_op._exe_deps) and allocated(new_op._deps_of) and op_fields_ok(new_op) and forall(j, 'int', implies(0 <= j and j < seq_len(new_op._exe_deps), select(new_op._exe_deps, j).g_inplan)) and forall(i, 'int', implies(0 <= i and i < seq_len(all_ops), select(all_ops, i)._exe_deps != new_op._exe_deps and select(all_ops, i)._deps_of != new_op._deps_of and select(all_ops, i) != new_op))", needs=["operations", "hooking_exe_deps", "hooking_fields", "canonical_entries", "inplan_operations_are_listed"]),
                              C("plan_lists_are_owned", "plan_lists_owned()", needs=[]),
+                             C("operations_outside_the_plan_have_no_dependent_recorded", "forall(o, 'Operation', implies(not o.g_inplan, o.g_last is None))", needs=["canonical_entries", "operations"]),
                          ]),
              },
              ghost=[
@@ -306,7 +336,13 @@ CONTRACTS = [
                        "assert TaskOf(lid(lt))._identifier == lid(lt) and TaskOf(lid(lt))._deps == Deps(lid(lt)) and lt.task._deps == Deps(lid(lt)), 'hint_popped_entry_task'\n"
                        "assert implies(lt.g_ph == 0, lt.state == LoweringState.FIRST_VISIT and seq_len(lt.deps) == 0 and seq_len(lt.output_ops) == 0), 'hint_new_entry'\n"
                        "assert implies(lt.g_ph == 1, lt.state == LoweringState.SECOND_VISIT and (lid(lt) in visited) and visited[lid(lt)] == lt and deps_match(lt)"
-                       " and seq_len(lt.output_ops) == 0), 'hint_open_entry'",
+                       " and seq_len(lt.output_ops) == 0), 'hint_open_entry'\n"
+                       "assert forall(p, 'int', implies(0 <= p and p < seq_len(stack), select(stack, p) != lt)),"
+                       " 'hint_popped_entry_is_not_below | needs=stack_entries_are_distinct_objects'\n"
+                       "assert forall(p, 'int', implies(0 <= p and p < seq_len(stack), select(stack, p).output_ops != lt.output_ops and select(stack, p).deps != lt.deps)),"
+                       " 'hint_popped_entry_owns_its_lists | needs=objects_own_their_lists,stack_entries'\n"
+                       "assert forall(t, 'TaskIdentifier', implies((t in visited) and visited[t] != lt, visited[t].output_ops != lt.output_ops and visited[t].deps != lt.deps)),"
+                       " 'hint_popped_entry_owns_its_lists_among_canonical_entries | needs=objects_own_their_lists,canonical_entries'",
                        after="lt = stack.pop()"),
                  Ghost("assert dep_ident == select(Deps(lid(lt)), seq_len(Deps(lid(lt))) - 1 - k) and Reach(dep_ident) and TaskOf(dep_ident)._identifier == dep_ident"
                        " and Rk(dep_ident) < Rk(lid(lt)), 'hint_dependency'\n"
@@ -339,8 +375,31 @@ CONTRACTS = [
                        " 'hint_new_operation_is_separate | needs=canonical_entries,operations,objects_own_their_lists,stack_entries'\n"
                        "assert edges_inv(), 'hint_edges_of_finished_entries_unchanged | needs=edges,canonical_entries,operations,objects_own_their_lists'",
                        before="lt.output_ops.append(new_op)"),
-                 Ghost("new_op.g_tid = lt.task._identifier\nnew_op.g_inplan = True\nnew_op.g_idx = len(all_ops)\nlt.g_ph = 2",
+                 Ghost("new_op.g_tid = lt.task._identifier\nnew_op.g_inplan = True\nnew_op.g_idx = len(all_ops)\nlt.g_ph = 2\n"
+                       "assert forall(i, 'int', implies(0 <= i and i < seq_len(all_ops), edges_wf(select(all_ops, i)))),"
+                       " 'hint_listed_operations_have_well_formed_edges | needs=hooking_edges,hooking_distinct,hooking_exe_deps'\n"
+                       "assert forall(i, 'int', implies(0 <= i and i < seq_len(all_ops), op_fields_ok(select(all_ops, i))"
+                       " and (select(all_ops, i).g_last is None or some(select(all_ops, i).g_last).g_inplan))),"
+                       " 'hint_listed_operations_keep_their_fields | needs=hooking_fields,hooking_last'\n"
+                       "assert edges_wf(new_op) and op_fields_ok(new_op) and (new_op.g_last is None or some(new_op.g_last).g_inplan),"
+                       " 'hint_new_operation_is_well_formed | needs=new_operation,ghost_state_pristine'",
                        after="lt.output_ops.append(new_op)"),
+                 Ghost("assert (lid(dep) in visited) and visited[lid(dep)].g_ph == 2 and dep_op == opof(lid(dep)) and dep_op.g_inplan and dep_op.g_tid == lid(dep)"
+                       " and 0 <= dep_op.g_idx and dep_op.g_idx < seq_len(all_ops) and select(all_ops, dep_op.g_idx) == dep_op and dep_op != new_op"
+                       " and lid(dep) == select(Deps(lid(lt)), seq_len(Deps(lid(lt))) - 1 - a), 'hint_dependency_operation'\n"
+                       "assert b == 0, 'hint_single_output_operation | needs=canonical_entries'\n"
+                       "assert implies(select(all_ops, dep_op.g_idx).g_last == new_op, 0 <= dep_op.g_dpos and dep_op.g_dpos < seq_len(Deps(lid(lt)))"
+                       " and seq_len(Deps(lid(lt))) - 1 - dep_op.g_dpos < a and dep_op.g_tid == select(Deps(lid(lt)), dep_op.g_dpos)),"
+                       " 'hint_if_hooked_then_for_an_earlier_dependency | needs=hooking_last'\n"
+                       "assert 0 <= a and a < seq_len(Deps(lid(lt))) and seq_len(lt.deps) == seq_len(Deps(lid(lt))), 'hint_a_in_range'\n"
+                       "assert Reach(lid(lt)), 'hint_reach'\n"
+                       "assert implies(0 <= dep_op.g_dpos and dep_op.g_dpos < seq_len(Deps(lid(lt))) and dep_op.g_dpos != seq_len(Deps(lid(lt))) - 1 - a,"
+                       " select(Deps(lid(lt)), dep_op.g_dpos) != select(Deps(lid(lt)), seq_len(Deps(lid(lt))) - 1 - a)),"
+                       " 'hint_dependencies_are_listed_once | needs=dependencies_listed_once'\n"
+                       "assert dep_op.g_last is None or some(dep_op.g_last) != new_op,"
+                       " 'hint_dependency_operation_not_hooked_yet | needs=hooking_last'\n"
+                       "assert dep_op._deps_of != new_op._deps_of and dep_op._exe_deps != new_op._exe_deps and allocated(dep_op._deps_of), 'hint_dependency_operation_lists'",
+                       before="new_op.add_exe_dep(dep_op)"),
                  Ghost("dep_op.g_back = store(dep_op.g_back, len(dep_op._deps_of) - 1, len(new_op._exe_deps) - 1)\ndep_op.g_last = new_op\n"
                        "dep_op.g_dpos = seq_len(Deps(lid(lt))) - 1 - a", after="dep_op.add_dep_of(new_op)"),
                  Ghost("new_op.g_iidx = len(initial_operations)", before="initial_operations.append(new_op)"),
